@@ -110,6 +110,12 @@ func c19Gen(r *RNG, id string) *Case {
 			base.Set("mode", "plain").SetInt("k", 0).SetInt("dd", 0)
 		case "closest-n":
 			base.Set("mode", "n").SetInt("k", r.Range(1, 5)).SetInt("dd", 0)
+			if r.Chance(1, 5) {
+				// a catchment of many hundred names: one output row of tens of kilobytes (a writer that cuts long rows into
+				// pieces has more places to lose an error)
+				base.SetInt("bigcatch", r.Range(550, 900))
+				base.Tag("catchment-of-hundreds")
+			}
 		default:
 			base.Set("mode", "table").SetInt("k", r.Range(1, 5)).SetInt("dd", 0)
 		}
@@ -177,6 +183,16 @@ func execFault(r *RNG, c *Case) {
 	case "closest", "closest-n", "closest-table":
 		q := renderFasta(split("qnames"), split("qseqs"), lay)
 		t := renderFasta(split("tnames"), split("tseqs"), lay)
+		if n := atoi(c.Get("bigcatch")); n > 0 {
+			var tn, ts []string
+			base := split("tseqs")
+			for i := 0; i < n; i++ {
+				tn = append(tn, fmt.Sprintf("target_sample_%04d", i))
+				ts = append(ts, base[i%len(base)])
+			}
+			t = renderFasta(tn, ts, lay)
+			c.SetInt("k", n)
+		}
 		enumerateFaults(c, func(w io.Writer) error {
 			if c.Get("cmd") == "closest" {
 				return closest.Closest(strings.NewReader(q), strings.NewReader(t), c.Get("measure"), w, 0)
